@@ -12,7 +12,7 @@ cleanup() { git -C /repo worktree remove --force $WT >/dev/null 2>&1; }
 trap cleanup EXIT
 cd $WT
 # the demos were written against the agent's worktree path; rewrite it
-run_demo() { rm -rf /tmp/demo-$N; cp -r $D/demo /tmp/demo-$N; grep -rl "/tmp/wt-C" /tmp/demo-$N 2>/dev/null | xargs -r sed -i "s#/tmp/wt-C[0-9]*#$WT#g"; (cd $WT && timeout 900 sh /tmp/demo-$N/run.sh >/tmp/demo-$N.out 2>&1); rc=$?; rm -rf /tmp/demo-$N; (cd $WT && git clean -fdq); return $rc; }
+run_demo() { rm -rf /tmp/demo-$N; cp -r $D/demo /tmp/demo-$N; grep -rlE "/tmp/wt[0-9]*-C" /tmp/demo-$N 2>/dev/null | xargs -r sed -i -E "s#/tmp/wt[0-9]*-C[0-9]+#$WT#g"; (cd $WT && timeout 900 sh /tmp/demo-$N/run.sh >/tmp/demo-$N.out 2>&1); rc=$?; rm -rf /tmp/demo-$N; (cd $WT && git clean -fdq); return $rc; }
 run_demo; base=$?
 if [ $base -ne 0 ]; then echo "FAIL $N: demo fails on the unpatched tree (rc=$base): $(tail -3 /tmp/demo-$N.out | tr '\n' ' ' | cut -c1-300)"; exit 1; fi
 git apply --3way $D/patch.diff >/tmp/confirm.apply 2>&1 || { echo "FAIL $N: patch does not apply: $(head -3 /tmp/confirm.apply | tr '\n' ' ')"; exit 2; }
